@@ -310,3 +310,27 @@ pub fn hash_of<T: std::hash::Hash>(t: &T) -> u64 {
     t.hash(&mut h);
     h.finish()
 }
+
+thread_local! {
+    static LAST_PANIC: std::cell::RefCell<(String, String)> = std::cell::RefCell::new((String::new(), String::new()));
+}
+
+/// install a quiet panic hook that records location and message per thread
+pub fn install_panic_hook() {
+    std::panic::set_hook(Box::new(|info| {
+        let loc = info.location().map(|l| format!("{}:{}", l.file(), l.line())).unwrap_or_default();
+        let msg = info
+            .payload()
+            .downcast_ref::<String>()
+            .cloned()
+            .or_else(|| info.payload().downcast_ref::<&str>().map(|s| s.to_string()))
+            .unwrap_or_default();
+        LAST_PANIC.with(|p| *p.borrow_mut() = (loc, msg));
+    }));
+}
+pub fn clear_panic() {
+    LAST_PANIC.with(|p| *p.borrow_mut() = (String::new(), String::new()));
+}
+pub fn last_panic() -> (String, String) {
+    LAST_PANIC.with(|p| p.borrow().clone())
+}
